@@ -143,5 +143,9 @@ def check(ctx):
     c02.api_rules(ctx, prog)
     R.c14_bounds(ctx, prog)
     R.c14_tables(ctx, prog)
+    # the start path is analysed under "fork mode <=> argv == NULL, otherwise argv[0] != NULL" (it hands argv[0] to strdup / strlen):
+    # that is what the validator has to establish for every argument vector the caller may pass (C13.A2o)
+    from . import c13
+    c13.check_parse_options(ctx, prog, None)
     R.exited_is_quiet(ctx, prog, "C14.L2q")
     R.c14_asserts(ctx)
